@@ -46,8 +46,8 @@ PROPS["C01"] = dict(
     pkgs=[KS], level="exploration", death_is_violation=True,
     quick=dict(checks=480, shards=16, timeout=400),
     thorough=dict(checks=16000, shards=16, timeout=2400),
-    technique="property-based testing: rapid-generated export/delete/import histories across two wallets, round-trip oracle against a reference model, single-field corruption of the export file",
-    level_text="Round trip export->import (same wallet after delete, other wallet) over generated histories is compared key by key with the model; rejected imports (wrong passphrase, present keystore, tampered file) must leave both wallets equal to the model; all restored keys must sign after unlock. Exploration with bounded history length and one corruption per import.",
+    technique="property-based testing: rapid-generated export/delete/import histories across two wallets, round-trip oracle against a reference model, single-field corruption of the export file (per-history and as a dense sweep of 16 corruptions per export over the fields the importer verifies byte for byte)",
+    level_text="Round trip export->import (same wallet after delete, other wallet) over generated histories is compared key by key with the model; rejected imports (wrong passphrase, present keystore, tampered file) must leave both wallets equal to the model; all restored keys must sign after unlock. Exploration with bounded history length and one corruption per import; corruptions of crypto.privParams, cryptoKeyPrivEnc and masterHDPrivKeyEnc (other than a swap with another export) must be rejected outright, for the other fields the verdict is taken on the restored keystore.",
     level_note="Trusted: reference model; pocec verification. Corruptions of unauthenticated fields are classified per field (see known_findings.json).",
     assumptions=["child counts are corrupted by at most +-8 so that a hostile count cannot stall the run"],
 )
@@ -56,7 +56,7 @@ PROPS["C12"] = dict(
     pkgs=[KS], level="fault_enumeration", exhaustive=True, death_is_violation=True,
     quick=dict(checks=96, shards=16, timeout=500),
     thorough=dict(checks=3200, shards=16, timeout=2400),
-    technique="fault enumeration driven by property-based generation: rapid generates the history and target operation; every bucket write and commit of the target is failed/crashed through a fault-injecting db.DB wrapper; oracle = full reference-model equality before/after",
+    technique="fault enumeration driven by property-based generation: rapid generates the history and target operation; every bucket write and commit of the target is failed/crashed through a fault-injecting db.DB wrapper; oracle = full reference-model equality before/after; after a reported storage error the target is retried without fault on the running instance and judged there and after restart",
     level_text="Per generated history the fault space of the target operation (each write x error, each commit x {error, crash before, crash after}) is enumerated completely; histories and targets are sampled. The store transaction is the unit of durability (goleveldb trusted).",
     level_note="Trusted: goleveldb transaction atomicity (a discarded transaction leaves nothing, a committed one is durable); the fault wrapper in zz_verif_c12_test.go; read-path faults are outside the property's fault list and are not injected.",
     assumptions=["crash = transaction discarded (before commit) or committed (after commit), then the manager is dropped and the store reopened", "exhaustive refers to the fault points of the target operation of each generated history, not to the space of histories"],
@@ -86,7 +86,7 @@ PROPS["C06"] = dict(
     pkgs=[KS, "poc/engine/spacekeeper/capacity"], race_pkgs=[KS], level="exploration", death_is_violation=True, engine="rapid-harness+race-detector",
     quick=dict(checks=480, shards=12, timeout=500, race_checks=320, race_shards=8),
     thorough=dict(checks=16000, shards=16, timeout=2400, race_checks=12000, race_shards=16),
-    technique="property-based testing: rapid-generated issuance histories vs. reference model of ordinals; generated concurrent issuance bursts under the race detector with a multiset oracle on ordinals",
+    technique="property-based testing: rapid-generated issuance histories (including single requests for 60-140 addresses, so that child indices pass 95) vs. reference model of ordinals; generated concurrent issuance bursts under the race detector with a multiset oracle on ordinals",
     level_text="Sequential histories are compared with a model (new key, ordinal = index in the owning keystore, consecutive, stable across restart/import); concurrent bursts must yield per keystore exactly the ordinals {0..n-1} with distinct keys. Exploration; interleavings inside the wallet are sampled.",
     level_note="Trusted: reference model; race detector. The keeper-side clause (plot file names recognised after restart) is exercised in the capacity harness as part of this check when available.",
     assumptions=["a keystore deleted and re-created from the same seed legitimately re-issues the same keys (HD derivation); 'never returned before' is judged per keystore lifetime"],
@@ -205,7 +205,7 @@ PROPS["C17"] = dict(
     pkgs=["fractal"], level="exploration", death_is_violation=True,
     quick=dict(checks=96, shards=16, timeout=900),
     thorough=dict(checks=1600, shards=16, timeout=2400),
-    technique="property-based generation of cluster topologies and task histories run in-process (real TCP on loopback for the relay); delivery oracle on the content produced by scripted keepers; stop/remove verdicts with goroutine stacks; generated loss of the relay uplink (TCP forwarder cut) with and without waiting for the relay's redial",
+    technique="property-based generation of cluster topologies and task histories run in-process (real TCP on loopback for the relay); delivery oracle on the content produced by scripted keepers; stop/remove verdicts with goroutine stacks; generated loss of the relay uplink (TCP forwarder cut) with and without waiting for the relay's redial; generated histories of 45-60 large broadcasts with one pool peer that never reads its connection (AddTask/RemoveTask/Subscribe/stop must return, healthy collectors must be served)",
     level_text="Generated topologies (local collectors, pool + relay + collectors behind it) and task histories are run for real; oracles are content based (which keeper served which task, what arrived on which task channel, tagged with which collector) plus 'call did not return' verdicts backed by stacks. Real time (750 ms collector ticker) bounds the number of cases. Exploration; subscribe-during-broadcast interleavings are not scheduled.",
     level_note="Trusted: scripted keeper; mass-core difficulty function (targets are chosen so low that every quality passes). No hooks are added to fractal (they would have to rewrite lines), so interleavings inside its goroutines are sampled.",
     assumptions=["upper time bounds are never verdicts, except the real waiter's own 5 s bound for targeted reports on an otherwise idle loopback topology", "exactly-once is judged in sequenced histories only"],
